@@ -247,9 +247,9 @@ func genFatHistory(r *core.Rng, tier string, idx int) *core.Trace {
 		case 8:
 			t.Ops = append(t.Ops, core.Op{K: "fill", A: int64(r.Intn(3)), B: r.Range(1, 3)})
 		case 9:
-			t.Ops = append(t.Ops, core.Op{K: "empty"})
+			t.Ops = append(t.Ops, core.Op{K: "empty", A: int64(r.Intn(2))})
 		case 10:
-			t.Ops = append(t.Ops, core.Op{K: "fill", A: int64(r.Intn(3)), B: r.Range(1, 3)}, core.Op{K: "empty"}, core.Op{K: "fill", A: int64(r.Intn(2)), B: 1})
+			t.Ops = append(t.Ops, core.Op{K: "fill", A: int64(r.Intn(3)), B: r.Range(1, 3)}, core.Op{K: "empty", A: int64(r.Intn(2))}, core.Op{K: "fill", A: int64(r.Intn(2)), B: 1})
 		case 11:
 			if held {
 				switch r.Intn(4) {
@@ -863,6 +863,13 @@ func (x *fatRun) step(o core.Op) *core.Violation {
 			}
 			m.put("/FILL", &mnode{dir: true})
 		}
+		// files already in /FILL that hold no data (left behind by an empty-by-truncate)
+		emptyKids := int64(0)
+		for _, c := range m.children("/FILL") {
+			if cn := m.nodes[c]; cn != nil && !cn.dir && len(cn.data) == 0 {
+				emptyKids++
+			}
+		}
 		rep := indep.CheckFAT(x.d, x.start, x.size, x.ft)
 		cl := rep.ClusterBytes
 		if cl <= 0 {
@@ -871,6 +878,9 @@ func (x *fatRun) step(o core.Op) *core.Violation {
 		free := rep.Clusters - rep.UsedClusters
 		if free < 0 {
 			free = 0
+		}
+		if o.B < 1 {
+			o.B = 1 // (a minimised trace may have dropped it)
 		}
 		perClusters := (free/100 + 1) * o.B
 		per := cl * perClusters
@@ -911,7 +921,10 @@ func (x *fatRun) step(o core.Op) *core.Violation {
 		}
 		if x.lastErr {
 			// fill -> empty -> fill with nothing in between: the refill must reach the first capacity
-			if x.firstFill > 0 && x.emptied && !x.otherSinceFill && count+perClusters+8 < x.firstFill && x.want("C01.space-not-reusable") {
+			// (files emptied by truncation keep their directory entries, and the refill adds its own: allow for the directory's growth)
+			// and in this library every file, also an empty one, owns one cluster: truncation releases all but the first
+			slack := int64(8) + (emptyKids*64)/cl + 1 + emptyKids
+			if x.firstFill > 0 && x.emptied && !x.otherSinceFill && count+perClusters+slack < x.firstFill && x.want("C01.space-not-reusable") {
 				return x.viol("C01.space-not-reusable", fmt.Sprintf("first fill stored %d clusters before the volume refused, after removing them all a refill stored only %d clusters (file size %d clusters)", x.firstFill, count, perClusters))
 			}
 			x.firstFill, x.emptied, x.otherSinceFill = count, false, false
@@ -930,6 +943,28 @@ func (x *fatRun) step(o core.Op) *core.Violation {
 			}
 			var err error
 			p := "/FILL/" + cn.name
+			if o.A == 1 {
+				// release the space by a truncating open that writes nothing: the (now empty) files stay
+				x.trig, x.locus = "empty(trunc)", lib+".(*FileSystem).OpenFile"
+				x.dropHandles(p)
+				if v := x.call(func() {
+					var f filesystem.File
+					f, err = x.fs.OpenFile(p, os.O_RDWR|os.O_TRUNC)
+					if err == nil {
+						err = f.Close()
+					}
+				}); v != nil {
+					return v
+				}
+				if err != nil {
+					x.lastErr = true
+					x.resync(p)
+					continue
+				}
+				cn.data = nil
+				x.mutated = true
+				continue
+			}
 			if v := x.call(func() { err = x.fs.Remove(p) }); v != nil {
 				return v
 			}
@@ -942,6 +977,9 @@ func (x *fatRun) step(o core.Op) *core.Violation {
 			x.mutated = true
 		}
 		x.res.Probe("empty")
+		if o.A == 1 {
+			x.res.Probe("empty-by-truncate")
+		}
 		if !x.otherSinceFill {
 			x.emptied = true
 		}
